@@ -347,3 +347,21 @@ func ObserveCoins(tag string, v sdk.Coins) {
 		Observed[tag+"."+c.Denom] = c.Amount.String()
 	}
 }
+
+// AnyDecCoins: arbitrary DecCoins over the given denominations; each 10^18-scaled amount in [0, 2^bits).
+func AnyDecCoins(tag string, bits int, denoms ...string) sdk.DecCoins {
+	cs := sdk.DecCoins{}
+	for _, d := range denoms {
+		v := sdkmath.LegacyNewDecFromBigIntWithPrec(val(tag+"."+d), 18)
+		if v.IsPositive() {
+			cs = cs.Add(sdk.NewDecCoinFromDec(d, v))
+		}
+	}
+	return cs
+}
+
+func ObserveDecCoins(tag string, v sdk.DecCoins) {
+	for _, c := range v {
+		Observed[tag+"."+c.Denom] = c.Amount.BigInt().String()
+	}
+}
